@@ -467,9 +467,15 @@ func typeOfJSONValue(v any) ExprType {
 		return &ArrayType{Elem: elem}
 	case map[string]any:
 		props := make(map[string]ExprType, len(v))
-		for k, v := range v {
-			// Property names are case-insensitive. Keys of object types are in lower case.
-			props[strings.ToLower(k)] = typeOfJSONValue(v)
+		// Property names are case-insensitive. Keys of object types are in lower case. Visit keys in
+		// sorted order so that the result is deterministic when two keys differ only in case.
+		keys := make([]string, 0, len(v))
+		for k := range v {
+			keys = append(keys, k)
+		}
+		sort.Strings(keys)
+		for _, k := range keys {
+			props[strings.ToLower(k)] = typeOfJSONValue(v[k])
 		}
 		return NewStrictObjectType(props)
 	case nil:
